@@ -8,12 +8,18 @@ over the generated constants, so they are re-elaborated against the current sour
 token signature: identifiers that are not parameters / constants / methods are wildcards, so renaming a
 local or reformatting does not matter, but swapping `min` and `max`, changing an operator or moving a
 constant breaks the translator (and with it the tie) instead of silently keeping the old model.
+
+Shape after the repair of F40 / F07's time subtraction (a `fix:` commit in the repository): the time difference
+is `self.lifetime.saturating_sub(..)` and the two rising bands end in `phrase.freq().saturating_add(delta)
+.min(MAX_USER_FREQ)`.  `saturating_add` / `saturating_sub` are signature tokens, so going back to a plain `+` / `-`
+(or to `wrapping_*` / `checked_*`) breaks the translator.  `Model/Estimate.lean` uses `satAdd32` / `satSub` at exactly
+these three places and keeps the `u32` guards on the remaining plain subtractions.
 """
 import re
 from extractlib import *
 
 KEEP = {"if", "else", "let", "self", "lifetime", "phrase", "freq", "last_used", "unwrap_or", "min", "max",
-        "orig_freq", "max_freq", "SHORT_INCREASE_FREQ", "MEDIUM_INCREASE_FREQ", "LONG_DECREASE_FREQ", "MAX_USER_FREQ"}
+        "orig_freq", "max_freq", "saturating_add", "saturating_sub", "SHORT_INCREASE_FREQ", "MEDIUM_INCREASE_FREQ", "LONG_DECREASE_FREQ", "MAX_USER_FREQ"}
 
 TOK = re.compile(r"\s*(?:([A-Za-z_][A-Za-z0-9_]*)|([0-9][0-9A-Za-z_]*)|(>=|<=|==|!=|&&|\|\||[-+*/<>=.;,(){}&!]))")
 
@@ -38,8 +44,9 @@ def signature(body):
 
 
 BAND = ("let _ = if phrase . freq ( ) >= max_freq { ( ( max_freq - orig_freq ) / # + # ) . min ( %s ) } "
-        "else { ( ( max_freq - orig_freq ) / # + # ) . max ( %s ) } ; ( phrase . freq ( ) + _ ) . min ( MAX_USER_FREQ )")
-WANT = ("let _ = self . lifetime - phrase . last_used ( ) . unwrap_or ( self . lifetime ) ; "
+        "else { ( ( max_freq - orig_freq ) / # + # ) . max ( %s ) } ; "
+        "phrase . freq ( ) . saturating_add ( _ ) . min ( MAX_USER_FREQ )")
+WANT = ("let _ = self . lifetime . saturating_sub ( phrase . last_used ( ) . unwrap_or ( self . lifetime ) ) ; "
         "if _ < # { " + BAND % ("SHORT_INCREASE_FREQ", "SHORT_INCREASE_FREQ") + " } "
         "else if _ < # { " + BAND % ("MEDIUM_INCREASE_FREQ", "MEDIUM_INCREASE_FREQ") + " } "
         "else { let _ = ( ( phrase . freq ( ) - orig_freq ) / # ) . max ( LONG_DECREASE_FREQ ) ; "
